@@ -275,7 +275,7 @@ pub fn stdlib_sweep() -> Vec<(String, String)> {
   let binary: [(&str, &str, &str); 13] = [("f64,f64", "2.5", "0.5"), ("row,row", "[1 2 3]", "[4 5 6]"), ("col,col", "[1; 2; 3]", "[4; 5; 6]"), ("mat,mat", "[1 2; 3 4]", "[5 6; 7 8]"), ("mat,f64", "[1 2; 3 4]", "2"), ("f64,mat", "2", "[1 2; 3 4]"), ("mat,col", "[1 2; 3 4]", "[5; 6]"),
     ("u8,u8", "7u8", "2u8"), ("set,set", "{1, 2, 3}", "{2, 3, 4}"), ("f64,set", "2", "{1, 2, 3}"), ("set,f64", "{1, 2, 3}", "4"), ("string,string", "\"ab\"", "\"cd\""), ("bool,bool", "true", "false")];
   let mut out = Vec::new();
-  for f in crate::corpus::stdlib_functions() {
+  for f in crate::corpus::stdlib_functions().into_iter().filter(|f| !f.contains('_')) {
     for (an, a) in unary.iter() {
       out.push((format!("fn={};args={};form=v", f, an), format!("x := {}\nr := {}(x)", a, f)));
       out.push((format!("fn={};args={};form=l", f, an), format!("r := {}({})", f, a)));
